@@ -169,6 +169,8 @@ TARGETED_PROGS = [
     'x = (a\n     and  # why\n                          b\n     and c)\ny = (p or  # cp\n     q or  # cq\n     r)\n',
     'z = (a\n     <  # lt\n            b\n     <= c)\nw = [\n    e1,  # c1\n    e2,  # c2\n    e3  # c3\n]\n',
     'match v:\n    case (a  # ca\n          | b  # cb\n          | c  # cc\n          ): pass\n',
+    # sequences inside replacement fields of f-strings: the self-documenting text and the "{{" guard must be maintained by cuts as by deletes
+    "x = f'{[a, b, c]=}'\ny = f'{a, {b}, c}'\nz = f'{ {k: v, l: w} }'\nw = f'{[p, q] = !r:>{n}}'\n",
 ]
 
 
@@ -180,7 +182,9 @@ def targeted_cases():
         for h in probe.walk(True):
             for fl in ('body', 'handlers', 'cases', 'orelse', 'finalbody', 'values', 'elts', 'patterns', '_all'):
                 v = getattr(h.a, fl, None) if fl != '_all' else (list(getattr(h, '_all')) if isinstance(h.a, ast.Compare) else None)
-                if fl in ('values', 'elts', 'patterns', '_all') and not isinstance(h.a, (ast.BoolOp, ast.List, ast.MatchOr, ast.Compare)):
+                if fl == '_all' and isinstance(h.a, ast.Dict):
+                    v = list(getattr(h, '_all'))
+                if fl in ('values', 'elts', 'patterns', '_all') and not isinstance(h.a, (ast.BoolOp, ast.List, ast.MatchOr, ast.Compare, ast.Tuple, ast.Set, ast.Dict)):
                     continue
                 if isinstance(v, list) and v and (fl == '_all' or isinstance(v[0], ast.AST)):
                     for i in range(len(v)):
